@@ -10,7 +10,8 @@ from ..core.facts import callee_name
 CONFIGS = {'quick': ['A'], 'thorough': ['A', 'B', 'C', 'D']}
 LEVEL = 'other'
 TECHNIQUE = ('who-may-call queries on HPKE encryption, def-use wiring of recipient keys and exclusion lists (through iterator-adaptor '
-             'closures), branch-conditioned must-pass for blanking, dominance of the self-removal guard')
+             'closures), branch-conditioned must-pass for blanking, dominance of the self-removal guard, path-cut check on the bool predicate '
+             'that decides whether a commit needs an update path (Remove => required on every path)')
 EXPLANATION = ('WHO-CALLS: HPKE seal is reachable only through HpkeEncryptable::encrypt (path secrets in '
                'TreeKem::encrypt_copath_node_resolution, group secrets in Group::encrypt_group_secrets) and the two explicit '
                'application-level hpke_encrypt APIs. WIRE: a path secret is encrypted to the public key of a node drawn from the '
